@@ -3,13 +3,15 @@
     Every theorem is generic in the configuration that translate/c14_dmx.py regenerates from dmx.py
     (Gen/DmxCodes_gen.v: [gen_cfg], [gen_kv1]); the check discharges the boolean premises for the generated
     instance on every run. *)
-From Coq Require Import NArith ZArith List Bool.
-From SV Require Import Fmt.DmxCodes Fmt.DmxCodesProofs Fmt.DmxBin Fmt.DmxBinProofs Fmt.DmxKv1 Fmt.DmxKv1Proofs Gen.DmxCodes_gen.
+From Coq Require Import NArith ZArith QArith List Bool.
+From SV Require Import Bin.Struct Fmt.DmxCodes Fmt.DmxCodesProofs Fmt.DmxBin Fmt.DmxBinProofs Fmt.DmxKv1 Fmt.DmxKv1Proofs
+  Fmt.DmxScalar Fmt.DmxScalarProofs Gen.DmxCodes_gen.
 Import ListNotations.
 
 (** The premises of the theorems below, for the configuration generated from today's source.  The check proves
     [c14_instance_premises = true] part by part (named instance obligations) on every run. *)
-Definition c14_instance_premises : bool := bin_cfg_ok gen_cfg && kv1_cfg_ok gen_kv1.
+Definition c14_instance_premises : bool :=
+  bin_cfg_ok gen_cfg && kv1_cfg_ok gen_kv1 && scalar_cfg_ok gen_scalar && sizes_match_formats gen_scalar gen_cfg.
 
 (** The attribute type byte: encode then decode gives back the value type and the scalar/array flag, for all 14
     types and both shapes. *)
@@ -72,3 +74,57 @@ Proof. exact kv1_nested_root_is_flattened. Qed.
 
 Theorem kv1_bridge_premises_satisfiable : kv1_cfg_ok sample_cfg = true /\ fold_ok (fun s => s) sample_cfg.
 Proof. exact kv1_premises_satisfiable. Qed.
+
+(** * Fixed-width value codecs (TYPE_CONVERT[t, BINARY] / TYPE_CONVERT[BINARY, t]) *)
+
+(** TIME: for binary64 division and multiplication [fdiv]/[fmul] that meet the standard model of rounding at the
+    operands used (relative error at most 2^-53 for [k / S] and [(k / S) * S]), every 32-bit tick count [k] survives
+    [round((k / S) * S)]: a tick-exact time is written as exactly its tick count, whatever the positive scale [S]. *)
+Theorem time_roundtrip : forall (fmul fdiv : Q -> Q -> Q) (S : Z), (0 < S)%Z ->
+  std_model_on_ticks fmul fdiv S ->
+  forall k, int32_ok k = true -> q_round_he (fmul (fdiv (inject_Z k) (inject_Z S)) (inject_Z S)) = k.
+Proof. exact time_ticks_exact. Qed.
+
+(** The hypothesis is satisfiable (exact arithmetic), and the executable binary64 rounding [rn64] meets it and the
+    conclusion on a computed grid of 2069 tick counts. *)
+Theorem time_roundtrip_premise_satisfiable :
+  std_model_on_ticks Qmult Qdiv 10000 /\ (forallb std_model_check tick_grid = true).
+Proof. split; [exact std_model_exact|exact std_model_rn64_grid]. Qed.
+
+(** [int()] instead of [round()] is refuted by a computed witness: 3 / 10000.0 is written as 2 ticks. *)
+Theorem time_truncation_loses_a_tick :
+  q_round RTrunc (fmul64 (fdiv64 3 10000) 10000) = 2%Z /\ q_round RNearestEven (fmul64 (fdiv64 3 10000) 10000) = 3%Z.
+Proof. exact time_truncation_refuted. Qed.
+
+(** Every fixed-width value representable in its wire type (int32, binary32 patterns, booleans, tick-exact times,
+    colour bytes, vectors, angles in [0, 360), quaternions, the 3x3 part of a matrix) is packed by the generated
+    struct format into exactly [calcsize] bytes and unpacked to the same value — for every configuration meeting
+    the named conditions, with CPython's struct as modelled in Bin/Struct.v. *)
+Theorem scalar_codec_roundtrip :
+  forall (fmul fdiv : Q -> Q -> Q) (anorm : N -> N) (cfg : scalarcfg),
+    scalar_cfg_ok cfg = true -> std_model_on_ticks fmul fdiv (sc_time_div cfg) ->
+    (forall b, (b < ANGLE_360)%N -> anorm b = b) ->
+    forall t v, sval_rep fdiv cfg t v ->
+    exists bs, encode_sval fmul cfg t v = Some bs /\ length bs = calcsize (wire_kinds t) /\
+               decode_sval fdiv anorm cfg t bs = Some v.
+Proof. exact scalar_codec_roundtrip_gen. Qed.
+
+Theorem scalar_codec_premises_satisfiable :
+  (scalar_cfg_ok pinned_scalar = true) /\ (sizes_match_formats pinned_scalar pinned_cfg = true).
+Proof. exact scalar_cfg_example. Qed.
+
+(** The conditions are necessary: a truncating TIME codec and a matrix reader that ignores the padding column
+    fail their named condition and lose a representable value. *)
+Theorem scalar_truncating_cfg_refuted :
+  (time_rounds_to_nearest trunc_scalar = false) /\
+  (let t := fdiv64 3 10000 in
+   match encode_sval fmul64 trunc_scalar TTime (SvTime t) with
+   | Some bs => decode_sval fdiv64 (fun b => b) trunc_scalar TTime bs
+   | None => None
+   end = Some (SvTime (fdiv64 2 10000))).
+Proof. exact truncating_cfg_refuted. Qed.
+
+Theorem scalar_matrix_unpadded_read_refuted :
+  (mat_cells_read_where_written bad_mat_scalar = false) /\
+  mat_unpack (sc_mat_unpack bad_mat_scalar) (mat_pack (sc_mat_pack bad_mat_scalar) [1;2;3;4;5;6;7;8;9]%N) <> [1;2;3;4;5;6;7;8;9]%N.
+Proof. exact matrix_unpadded_read_refuted. Qed.
